@@ -3,7 +3,9 @@
     the transcription of tachys/src/view/keyed.rs after the [fix:] commit).
     All theorems are UNBOUNDED: any key lists without duplicates, any item views (a [builder]
     says which fresh, non-empty list of nodes the state of the item view of a key owns;
-    [fixed_bld m] = m nodes per item), any leading siblings [pre] and following siblings [post]. *)
+    [fixed_bld m] = m nodes per item, [var_bld m] = [m k] nodes for the item of key [k]: a row that
+    is itself a keyed list / Vec / Option / Either / tuple ... is such a node list, its markers and
+    placeholders included), any leading siblings [pre] and following siblings [post]. *)
 From Coq Require Import List NArith.
 From LV Require Import Dom.Dom Dom.Keyed Dom.KeyedProofs Dom.KeyedTop.
 Import ListNotations.
